@@ -44,7 +44,7 @@ theorem selectWidths_integral (ws : List Int) :
   · have hd := mostFrequent_integral ws [] 0 0 (by decide)
     simp only
     split
-    · exact ⟨hd, by intro v h; cases h⟩
+    · exact ⟨hd, by intro v h; cases h; decide⟩
     · exact ⟨hd, by intro v h; cases h; exact fxIntegral_mul _⟩
 
 /-- `int32(x)` of an integral width (inside the int32 range) is the width itself. -/
